@@ -60,8 +60,11 @@ static Packet ifPacket(int d, int i, int v)
 {
     InterfacePayload p;
     p.setInterfaceId(kIf[i]);
-    p.setMsgTotalRx(1000 + d * 100 + i * 10 + (1 - v));   // counters go down where the timestamp goes up (see cmPacket)
-    uint8_t s[2] = {(uint8_t) i, (uint8_t) v};
+    // the two variants of an interface status message carry the SAME payload bytes and differ in header fields only (timestamp, stream
+    // id, flags, version, vendor id, counter, the header's interface-id attribute): "latest" means the whole packet, not its payload
+    (void) v;
+    p.setMsgTotalRx(1000 + d * 100 + i * 10);
+    uint8_t s[2] = {(uint8_t) i, (uint8_t) 7};
     p.setData(s, 2, nullptr, 0);
     Packet k;
     k.setPayload(p);
